@@ -188,6 +188,18 @@ theorem C11_init (pa : ADMMParams K X Z) (pl : LADMMParams K X Z) (x0 : X) (z0 :
     (apgmInit L0 inf x0 m : APGMState σ K X) = { x := x0, v := x0, t := 1, L := L0, fpr := inf, mem := m } :=
   ⟨rfl, rfl, rfl, rfl, rfl, rfl, rfl, rfl, rfl, rfl⟩
 
+/-- EVERY combination of given / missing starts (`x0`, `z0`, `u0` each `None` or an array): the constructor state is the supplied
+    value (zeros where missing) and each `*_old` copy is initialised FROM THE SAME value as its variable — `z_old = z`, `u_old = u`
+    (`ProximalADMMBase.__init__`), `x_old = x`, `z_old = z` (`PDHG.__init__`), `z_old = z = C x0`, `u = 0` (`ADMM`, `LinearizedADMM`) -/
+theorem C11_init_any_starts (pa : ADMMParams K X Z) (pl : LADMMParams K X Z) (x0 : Option X) (z0 : Option Z) (u0 : Option U) :
+    (padmmInit x0 z0 u0 : PADMMState X Z U)
+      = { x := x0.getD 0, z := z0.getD 0, zOld := z0.getD 0, u := u0.getD 0, uOld := u0.getD 0 } ∧
+    (pdhgInit x0 z0 : PDHGState X Z) = { x := x0.getD 0, xOld := x0.getD 0, z := z0.getD 0, zOld := z0.getD 0 } ∧
+    ladmmInit pl x0 = { x := x0.getD 0, z := pl.C (x0.getD 0), zOld := pl.C (x0.getD 0), u := 0 } ∧
+    admmInit pa x0 = { x := x0.getD 0, z := pa.C.map (fun C => C (x0.getD 0)), zOld := pa.C.map (fun C => C (x0.getD 0)),
+                       u := pa.C.map (fun _ => 0) } := by
+  cases x0 <;> cases z0 <;> cases u0 <;> exact ⟨rfl, rfl, rfl, rfl⟩
+
 /-- constructor argument checks.  `ADMM.__init__`: `len(C_list) ≠ len(g_list)` or `len(rho_list) ≠ len(g_list)` is a
     `ValueError`; otherwise the state is `admmInit` and all lists have the common length `N = len(g_list)` — the
     hypothesis of `C11_admm_impl_eq_spec` (`proxg` and `g` are the same list of functional objects, hence `hpg`).
